@@ -144,6 +144,8 @@ def run_ast_case(case, res, prop):
             res.count("pseudo_groups_judged")
             if msg:
                 res.violation("C05" if s["k"] in ("li", "la", "ldv", "stv") and prop == "C05" else "C04", "pseudo-effect", "%r assembles to %s: %s" % (plain.stmt(s), g, msg), case)
+                if res.violations and res.violations[-1]["case"] is case:
+                    res.violations[-1]["stmt"] = s
                 return
             groups.append(g)
         else:
@@ -245,6 +247,8 @@ def directed_c04():
     # in-line label on li (expanding), on load-by-name, on la; reference before and after
     D.append(mk([{"k": "li", "rd": 1, "c": 100000}, {"k": "brl", "m": "beq", "rs1": 0, "rs2": 0, "label": "loop_0", "off": None}, {"k": "nop"}], {"loop_0": 0}))
     D.append(mk([{"k": "jall", "m": "jal", "rd": 0, "label": "L0", "off": 4}, {"k": "ldv", "m": "lw", "rd": 6, "var": "v", "idx": 2}, {"k": "la", "rd": 7, "var": "buf", "idx": 1}, {"k": "brl", "m": "bne", "rs1": 6, "rs2": 7, "label": "L1", "off": None}, {"k": "stv", "m": "sh", "rs1": 6, "rs2": 7, "var": "s", "idx": 1}], {"L0": 1, "L1": 2, "end2": 5}, data))
+    # load-by-name into x0 (open known finding K2: the group uses rd as address register and faults)
+    D.append(mk([{"k": "ldv", "m": "lw", "rd": 0, "var": "v", "idx": 1}, {"k": "nop"}], {}, data))
     D.append(mk([{"k": "li", "rd": 5, "c": -1}, {"k": "li", "rd": 5, "c": 0xFFFFF800}, {"k": "mv", "rd": 3, "rs": 5}, {"k": "jaln", "m": "jal", "rd": 1, "abs": 0}, {"k": "brn", "m": "bgeu", "rs1": 1, "rs2": 2, "imm": -8}, {"k": "ecall"}], {"L0": 6, "Label1": 6, "_x2y": 3}))
     return D
 
